@@ -226,3 +226,56 @@ func alwaysSets(g *ssa.Function, p *ssa.Parameter, depth int) bool {
 	}
 	return true
 }
+
+// c02AbsentInvalid: "every field that was not present holds its type's invalid value": a record
+// starts from the message's all-invalid constructor (C03-6-message-flows), so the clause is that
+// each constructor initialises each field with the invalid value of the base type its profile row
+// declares, at the Go width of the struct member (the C15-4 comparison, run here per row).
+func c02AbsentInvalid(c *Ctx, r *Report) {
+	const rule = "C02-R12-absent-invalid"
+	p, errs := c.profile()
+	if p == nil || len(errs) > 0 {
+		r.fail(rule, "profile", "", "profile tables not readable")
+		return
+	}
+	n := 0
+	for _, mn := range p.sortedMsgs() {
+		rows := p.Fields[mn]
+		ctor := p.NewFuncs[mn]
+		if len(rows) == 0 || ctor == nil {
+			continue
+		}
+		ci := c.parseCtor(ctor)
+		if ci == nil || ci.errStr != "" || ci.named == nil {
+			continue // C15-1-ctor reports it
+		}
+		st, ok := ci.named.Underlying().(*types.Struct)
+		if !ok {
+			continue
+		}
+		for _, num := range p.sortedNums(mn) {
+			pf := rows[num]
+			if pf.Sindex < 0 || pf.Sindex >= st.NumFields() {
+				continue
+			}
+			fb := fitBaseByWire(pf.Base)
+			if fb == nil {
+				continue
+			}
+			n++
+			sf := st.Field(pf.Sindex)
+			okV, why := c15CtorValue(c, ci, sf, pf, fb)
+			if okV == 1 {
+				continue // one summary obligation below; failures are listed individually
+			}
+			key := fmt.Sprintf("%s.%d", p.name(mn), num)
+			if okV == 2 {
+				r.undecided(rule, key, c.pos(pf.Pos), why)
+			} else {
+				r.fail(rule, key, c.pos(pf.Pos), fmt.Sprintf("constructor %s initialises %s with something other than the invalid value of the field's base type (%s): a record that does not carry the field decodes with a value that reads as present", ci.fn.Name(), sf.Name(), why))
+			}
+		}
+	}
+	r.ok(rule, "scan", "", fmt.Sprintf("%d table rows: the all-invalid constructor gives each member the invalid value of its row's base type at the member's width", n))
+	r.need("rows compared with their constructor value", n, 500)
+}
